@@ -141,3 +141,9 @@ Qed.
 
 Lemma flat_map_map {A B C} (g : A -> B) (f : B -> list C) l : flat_map f (map g l) = flat_map (fun x => f (g x)) l.
 Proof. induction l as [|x l IH]; [reflexivity|]. cbn. rewrite IH. reflexivity. Qed.
+
+Lemma app_eq_app_length {A} (a b c d : list A) : length a = length c -> a ++ b = c ++ d -> a = c /\ b = d.
+Proof.
+  revert c; induction a as [|x a IH]; intros [|y c] Hl H; cbn in *; try discriminate; [auto|].
+  inversion H; subst. destruct (IH c ltac:(lia) H2) as [-> ->]. auto.
+Qed.
